@@ -44,6 +44,9 @@ func checkC03(c *Ctx) {
 	c.Rule("C03-R10", "the key matcher passes over a bare ESC entry of the table (eterm, which defines no ESC-introduced key, gets one from the control-byte loop): ESC alone stays the Alt prefix or the timed-out Esc key")
 	c.Expect("C03-R10", 1)
 	checkBareEscapeSkipped(c, p, "C03-R10")
+	c.Rule("C03-R11", "every entry is found under its name and under each of its aliases as written: AddTerminfo files the entry under both, keyed by the strings themselves (a key folded on one side only loses X-hpterm, the one alias that is not lower case)")
+	c.Expect("C03-R11", 2)
+	c.asRule("C14-R6", "C03-R11", func() { c14Registry(c, p) })
 	db := buildDB(c, p)
 	regs, writers, names := keyRegistrars(c, p)
 	nFirst, nRepl := 0, 0
